@@ -167,8 +167,8 @@ func (p *ppProc) finish() (int, error) {
 	}
 }
 
-func ppAlone(bin string, b []byte) ([]byte, error) {
-	cmd := exec.Command(bin)
+func ppAlone(bin string, b []byte, flags ...string) ([]byte, error) {
+	cmd := exec.Command(bin, flags...)
 	cmd.Stdin = bytes.NewReader(b)
 	cmd.Env = ppEnv()
 	return cmd.Output()
@@ -194,9 +194,14 @@ func CheckPPDrive(prop string, c *Case, cov *Cov) []*Violation {
 		seen[clause] = true
 		vs = append(vs, &Violation{Prop: prop, Clause: prop + "." + clause, Msg: "[pp binary over pipes] " + msg, Case: c, Known: known})
 	}
+	// flags that must not change anything but the rendering itself
+	var flags []string
+	if len(c.Extra) > 0 {
+		json.Unmarshal(c.Extra, &flags)
+	}
 	rend := make([][]byte, len(s.Dumps))
 	for i, d := range s.Dumps {
-		o, err := ppAlone(bin, gen.Render(gen.SubDoc(c.Doc, d.Item)).Bytes)
+		o, err := ppAlone(bin, gen.Render(gen.SubDoc(c.Doc, d.Item)).Bytes, flags...)
 		if err != nil {
 			add("pp-exit", "", fmt.Sprintf("pp on dump #%d alone failed: %v", i, err))
 			return vs
@@ -211,7 +216,7 @@ func CheckPPDrive(prop string, c *Case, cov *Cov) []*Violation {
 			hasLook = true
 		}
 	}
-	p, err := startPP(bin)
+	p, err := startPP(bin, flags...)
 	if err != nil {
 		panic(ppInfra{err})
 	}
@@ -291,6 +296,22 @@ func CheckPPDrive(prop string, c *Case, cov *Cov) []*Violation {
 	if prop == "C11" {
 		return vs
 	}
+	// the same stream given as a file argument instead of stdin
+	if f, err := os.CreateTemp("", "ppdrive-*.txt"); err == nil {
+		f.Write(b)
+		f.Close()
+		fo, ferr := ppAlone(bin, nil, append(append([]string{}, flags...), f.Name())...)
+		os.Remove(f.Name())
+		if ferr == nil && !matchPieces(pieces, del, fo, false) && !matchPieces(pieces, del, fo, true) {
+			d := FirstDiff(fo, want)
+			add("pp-output", "", fmt.Sprintf("pp <file> exited 0 but its output is not the file with each dump replaced by its rendering: first difference at output byte %d: got %s, want %s", d, Clip(fo[max0(min(d, len(fo))-30):], 120), Clip(want[max0(min(d, len(want))-30):], 120)))
+		} else if ferr != nil && !hasLook {
+			add("pp-exit", "", fmt.Sprintf("pp <file> failed on a stream of well-formed dumps and junk: %v", ferr))
+		}
+		if cov != nil {
+			cov.Probe("pp-file-argument")
+		}
+	}
 	if !matchPieces(pieces, del, p.out, false) {
 		known := ""
 		if matchPieces(pieces, del, p.out, true) {
@@ -336,6 +357,9 @@ func postPPDrive(prop string) func(seed uint64, tier string, cov *Cov) ([]*Viola
 					continue
 				}
 				c := &Case{Prop: prop, Run: uint64(i), Seed: seed, Mode: "ppdrive", Doc: doc, Sched: sc, NameArgs: true}
+				if fl := [][]string{nil, nil, {"-f", "ZZZNOMATCH"}, {"-m", "."}, {"-aggressive"}, {"-full-path"}, {"-parse=false"}}[r.Intn(7)]; fl != nil {
+					c.Extra, _ = json.Marshal(fl)
+				}
 				execs++
 				for _, v := range CheckPPDrive(prop, c, cov) {
 					if !seen[v.Clause+v.Known] {
@@ -354,5 +378,4 @@ func init() {
 		p := p
 		extraModes[p+"/ppdrive"] = func(c *Case, cov *Cov) []*Violation { return CheckPPDrive(p, c, cov) }
 	}
-	_ = json.Marshal
 }
